@@ -378,21 +378,106 @@ func kindGuarded(t *Tree, call *ssa.Call, s2k map[string]int64) string {
 	if !ok {
 		return ""
 	}
-	np := path(call.Call.Args[0])
-	for _, ec := range factsAt(call) {
+	return kindFactAt(t, call, call.Call.Args[0], want, "Type"+f.Name(), 0)
+}
+
+// kindFactAt: at instruction `at`, node value n is known to have NodeType == want: by a dominating fact in this
+// function (`n.NodeType == K` taken, or `n.NodeType != K` not taken), or — when n is (a field path of) a parameter
+// of an unexported function — by the same fact at every call site of that function in the module.
+func kindFactAt(t *Tree, at ssa.Instruction, n ssa.Value, want int64, name string, depth int) string {
+	np := path(n)
+	for _, ec := range factsAt(at) {
 		bo, ok := ec.Cond.(*ssa.BinOp)
 		if !ok {
 			continue
 		}
 		k, isC := constInt(bo.Y)
-		if !isC || path(bo.X) != np+".NodeType" {
+		if !isC || k != want || path(bo.X) != np+".NodeType" {
 			continue
 		}
-		if bo.Op == token.EQL && ec.Pol && k == want {
-			return "dominated by NodeType == Type" + f.Name() + " of the same node"
+		if (bo.Op == token.EQL && ec.Pol) || (bo.Op == token.NEQ && !ec.Pol) {
+			return "dominated by NodeType == " + name + " of the same node"
+		}
+	}
+	if depth >= 2 {
+		return ""
+	}
+	fn := at.Parent()
+	prm, ok := rootOf(n).(*ssa.Parameter)
+	if !ok || fn.Object() == nil || fn.Object().Exported() {
+		return ""
+	}
+	k := -1
+	for i, q := range fn.Params {
+		if q == prm {
+			k = i
+		}
+	}
+	suffix := strings.TrimPrefix(np, prm.Name())
+	if k < 0 || (suffix != "" && !strings.HasPrefix(suffix, ".")) {
+		return ""
+	}
+	sites := callersOf(t)[fn]
+	if len(sites) == 0 {
+		return ""
+	}
+	for _, cs := range sites {
+		if k >= len(cs.Call.Args) {
+			return ""
+		}
+		actual := cs.Call.Args[k]
+		if suffix != "" {
+			// the fact must be about the same field path below the actual argument
+			if kindFactPath(t, cs, path(actual)+suffix, want) == "" {
+				return ""
+			}
+			continue
+		}
+		if kindFactAt(t, cs, actual, want, name, depth+1) == "" {
+			return ""
+		}
+	}
+	return fmt.Sprintf("every call of %s (%d) passes a node tested NodeType == %s", fn.Name(), len(sites), name)
+}
+
+func kindFactPath(t *Tree, at ssa.Instruction, np string, want int64) string {
+	for _, ec := range factsAt(at) {
+		bo, ok := ec.Cond.(*ssa.BinOp)
+		if !ok {
+			continue
+		}
+		k, isC := constInt(bo.Y)
+		if !isC || k != want || path(bo.X) != np+".NodeType" {
+			continue
+		}
+		if (bo.Op == token.EQL && ec.Pol) || (bo.Op == token.NEQ && !ec.Pol) {
+			return "fact"
 		}
 	}
 	return ""
+}
+
+// callersOf: static call sites of every function of the module (built once per tree).
+var callersMemo = map[*Tree]map[*ssa.Function][]*ssa.Call{}
+
+func callersOf(t *Tree) map[*ssa.Function][]*ssa.Call {
+	if m, ok := callersMemo[t]; ok {
+		return m
+	}
+	m := map[*ssa.Function][]*ssa.Call{}
+	for pkg := range t.SSA {
+		for _, f := range t.PkgFuncs(pkg) {
+			allInstrs(f, func(in ssa.Instruction) {
+				if call, ok := in.(*ssa.Call); ok {
+					if g := call.Call.StaticCallee(); g != nil {
+						m[g] = append(m[g], call)
+					}
+				}
+			})
+		}
+	}
+	callersMemo[t] = m
+	return m
 }
 
 func collectPanicSites(t *Tree, fns map[*ssa.Function]bool) []panicSite {
